@@ -59,6 +59,7 @@ const (
 	zzKMap
 	zzKEnumStrNull
 	zzKNull
+	zzKObjAP
 )
 
 func zzTypeList(name string, nullable bool) schemas.TypeList {
@@ -161,7 +162,7 @@ func zzLimit() int {
 // zzGen draws a schema of one of the kinds in mask at nesting depth <= depth.
 func zzGen(mask int, depth int, allowNullable bool) (*schemas.Type, *zzSpec) {
 	var kinds []int
-	for k := 1; k <= zzKNull; k <<= 1 {
+	for k := 1; k <= zzKObjAP; k <<= 1 {
 		if mask&k != 0 {
 			if (k == zzKArray || k == zzKObject) && depth <= 0 {
 				continue
@@ -285,6 +286,21 @@ func zzGen(mask int, depth int, allowNullable bool) (*schemas.Type, *zzSpec) {
 		t.Enum = []interface{}{"a", 1.5, true, nil}
 	case zzKAny:
 		s.kind = "any"
+	case zzKObjAP:
+		// an object with a declared property AND typed additionalProperties: struct with an
+		// AdditionalProperties map that collects the undeclared members
+		s.kind = "object-ap"
+		t.Type = zzTypeList("object", nullable)
+		req := zzvrt.Bool()
+		t.Properties = map[string]*schemas.Type{"p": {Type: schemas.TypeList{"string"}}}
+		t.AdditionalProperties = &schemas.Type{Type: schemas.TypeList{"integer"}}
+		s.props = map[string]*zzSpec{"p": {kind: "string"}}
+		s.order = []string{"p"}
+		s.required = map[string]bool{"p": req}
+		if req {
+			t.Required = []string{"p"}
+		}
+		s.items = &zzSpec{kind: "integer"}
 	case zzKNull:
 		// {"type": "null"}: only null is a value of this position
 		s.kind = "null"
